@@ -564,6 +564,11 @@ class Interp:
             jv = self._ev(e.a[2], env, ctx, ln)
             x = ref.v.items[jv.v]
             sl = next(iter(x.src))[0] if x.src else None
+            # Everything the read touches is demanded: both subscripts are plain loads (operands searched for), the cell of
+            # the outer container is found like a flat cell, and the cell of the inner one is defined by its last store
+            # whichever path made it.  The shapes only label the case (floors, witness keys): a store made after nesting and
+            # followed by another store into the same inner container is the one the slicer lost before repo fix a6c67b9
+            # (one pending use per container, consumed by the first store met going backwards).
             if sl is not None and x.via != "app":
                 if x.t < ref.t:
                     self.shapes.add(("nested-subscript-read-of-store-before-nesting", ln, sl))
@@ -606,8 +611,13 @@ def frontier(res: Result, root: int, checked: set[int], need=None):
     return sorted(out)
 
 
-def mechanism(prog: Prog, line: int, kind: str, frm=None) -> str:
+def mechanism(prog: Prog, line: int, kind: str, frm=None, hidden=()) -> str:
     tag = prog.tag.get(line, "unknown")
+    if kind == "data" and tag == "subscript-store" and frm is not None and "nested-subscript-read" in prog.feat.get(frm, ()):
+        # the cell was read through `outer[i][j]`: the inner container is not loaded from a variable by the reading line
+        if line in hidden:
+            return "missing-dependence:data:subscript-store:read-through-nested-subscript:hidden-by-later-store-to-same-container"
+        return "missing-dependence:data:subscript-store:read-through-nested-subscript"
     if frm is not None and prog.tag.get(frm) == "subscript-store":
         # the store line is a checked line for another reason (e.g. the loop's JUMP_BACKWARD carries its line number),
         # but the store instruction itself was not followed
@@ -944,18 +954,18 @@ class _Gen:
             nest = self.nest_stmt(env, must=inner)
             body.append(nest)
             outer = nest.a[0]
-            hot = (outer, next(key for key, n in env["nst"][outer]["slots"].items() if n == k), inner, k)
+            cells = nest.a[1] if nest.k == "dnew" else list(enumerate(nest.a[1]))
+            hot = (outer, next(key for key, x in cells if x.k == "var" and x.a[0] == inner), inner, r.randrange(k))
         body.extend(self.block(env, r.randint(3, 6), 0, None))
         if hot is not None and r.random() < 0.75:  # the store through the alias, after nesting
-            outer, slot, inner, k = hot
-            j = r.randrange(k)
+            outer, slot, inner, j = hot
+            k = env["lst"][inner]
             st = LSet(inner, C(j), self.int_expr(env, 1))
             if r.random() < 0.3:
                 st = If(self.cond(env), [st], [LSet2(outer, C(slot), C(j), self.int_expr(env, 1))] if r.random() < 0.5 else [])
             body.append(st)
             if r.random() < 0.2:  # a later store to a sibling cell of the same container
                 body.append(LSet(inner, C((j + 1) % k), self.int_expr(env, 1)))
-            hot = (outer, slot, inner, j)
         # sink: combine several live things so that the returned value has a rich dependence set
         terms = [V(n) for n in r.sample(sorted(env["int"]), min(len(env["int"]), r.randint(1, 3)))]
         if r.random() < 0.6:
@@ -1111,6 +1121,41 @@ def directed() -> list[tuple[Prog, list[tuple[int, int]]]]:
         If(And(Cmp(">", V("a"), C(1)), Cmp(">", V("x2"), C(3))), [Assign("x1", C(1))], [Assign("x1", C(2))]),
         If(Or(Not(Cmp(">", V("a"), C(1))), Cmp("==", V("b"), C(5))), [Aug("x1", "+", C(10))]),
         Assign("z", V("x1")), Ret(V("z"))))
+    # ---- containers nested in containers, aliases, element stores through one path and reads through the other
+    add("nested-list-alias-store-after-nesting", _entry(
+        LNew("l1", C(0), V("b")), LNew("n1", V("l1"), C(7)), Assign("x1", Bin("*", V("a"), C(3))),
+        LSet("l1", C(1), V("x1")), Assign("x2", C(0)),
+        Assign("z", Idx2("n1", C(0), C(1))), Ret(V("z"))))
+    add("nested-dict-alias-store-after-nesting", _entry(
+        LNew("l1", C(0), C(0)), LNew("l2", C(1), C(1)), DNew("d1", ("k", V("l1")), ("o", V("l2")), ("j", V("b"))),
+        LSet("l1", C(0), Bin("+", V("a"), C(5))), LSet("l2", C(0), C(6)),
+        Assign("z", Idx2("d1", C("k"), C(0))), Ret(V("z"))))
+    add("nested-store-before-nesting", _entry(
+        LNew("l1", C(0), C(0), C(0)), LSet("l1", C(0), V("a")), LSet("l1", Bin("%", V("b"), C(3)), Bin("+", V("b"), C(1))),
+        LNew("n1", C(4), V("l1")), Assign("x1", C(2)),
+        Assign("z", Bin("+", Idx2("n1", C(1), C(0)), Idx2("n1", C(-1), Bin("%", V("b"), C(3))))), Ret(V("z"))))
+    add("nested-store-read-through-alias", _entry(
+        LNew("l1", C(0), C(0)), DNew("d1", ("k", V("l1"))), LSet2("d1", C("k"), C(1), Bin("*", V("a"), C(2))), Assign("x1", C(3)),
+        Assign("l2", Idx("d1", C("k"))), Assign("l3", V("l1")),
+        Assign("z", Bin("+", Idx("l2", C(1)), Idx("l3", C(-1)))), Ret(V("z"))))
+    add("nested-store-nested-read", _entry(
+        LNew("l1", C(0), C(0)), LNew("l2", C(5), C(5)), LNew("n1", V("l1"), V("l2")),
+        LSet2("n1", C(0), Bin("%", V("a"), C(2)), V("b")), LSet2("n1", C(1), C(0), C(8)), Assign("x1", C(3)),
+        Assign("z", Idx2("n1", C(0), Bin("%", V("a"), C(2)))), Ret(V("z"))))
+    add("nested-container-replaced", _entry(
+        LNew("l1", C(0), C(0)), LNew("l2", V("a"), C(1)), LNew("n1", V("l1"), C(3)),
+        If(Cmp(">", V("a"), V("b")), [LSet("n1", C(0), V("l2"))]),
+        LSet("l2", C(1), Bin("+", V("b"), C(2))), LSet("l1", C(1), C(4)),
+        Assign("z", Idx2("n1", C(0), C(1))), Ret(V("z"))))
+    add("nested-alias-store-under-control", _entry(
+        LNew("l1", C(0), C(0)), LNew("n1", V("l1"), C(7)), Assign("l2", V("l1")), Assign("x1", Bin("+", V("a"), C(1))),
+        If(Cmp(">", V("a"), V("b")), [LSet("l2", C(0), V("x1"))], [Assign("x2", C(1))]),
+        For("i1", Bin("%", V("b"), C(3)), [LSet("l1", C(1), Bin("+", V("i1"), V("a")))]),
+        Assign("z", Bin("+", Idx2("n1", C(0), C(0)), Idx2("n1", C(0), C(1)))), Ret(V("z"))))
+    add("nested-two-alias-stores-after-nesting", _entry(
+        LNew("l1", C(0), C(0)), LNew("n1", V("l1"), C(7)),
+        LSet("l1", C(0), Bin("+", V("a"), C(5))), LSet("l1", C(1), V("b")),
+        Assign("z", Idx2("n1", C(0), C(0))), Ret(V("z"))))
     add("probe", _entry(
         New("o1", V("a"), C(7)), Assign("x9", Bin("*", V("b"), C(5))), LNew("l1", V("a"), V("b"), C(4)), Assign("c1", C(0)),
         While(Cmp("<", V("c1"), C(3)), [Assign("c1", Bin("+", V("c1"), C(1)))]),
